@@ -1,0 +1,53 @@
+// Copyright 2021 TiKV Project Authors.
+//
+// Licensed under the Apache License, Version 2.0 (the "License");
+// you may not use this file except in compliance with the License.
+// You may obtain a copy of the License at
+//
+//     http://www.apache.org/licenses/LICENSE-2.0
+//
+// Unless required by applicable law or agreed to in writing, software
+// distributed under the License is distributed on an "AS IS" BASIS,
+// See the License for the specific language governing permissions and
+// limitations under the License.
+
+//go:build verif
+// +build verif
+
+package syncer
+
+import (
+	"github.com/pingcap/kvproto/pkg/pdpb"
+	"github.com/tikv/pd/server/core"
+	"github.com/tikv/pd/server/kv"
+)
+
+// VerifHistoryBuffer exports the unexported history buffer.
+type VerifHistoryBuffer struct{ h *historyBuffer }
+
+// VerifNewHistoryBuffer calls newHistoryBuffer (which reloads the index from kv).
+func VerifNewHistoryBuffer(size int, kv kv.Base) *VerifHistoryBuffer {
+	return &VerifHistoryBuffer{h: newHistoryBuffer(size, kv)}
+}
+
+// Record calls Record.
+func (b *VerifHistoryBuffer) Record(r *core.RegionInfo) { b.h.Record(r) }
+
+// RecordsFrom calls RecordsFrom.
+func (b *VerifHistoryBuffer) RecordsFrom(index uint64) []*core.RegionInfo {
+	return b.h.RecordsFrom(index)
+}
+
+// ResetWithIndex calls ResetWithIndex.
+func (b *VerifHistoryBuffer) ResetWithIndex(index uint64) { b.h.ResetWithIndex(index) }
+
+// GetNextIndex calls GetNextIndex.
+func (b *VerifHistoryBuffer) GetNextIndex() uint64 { return b.h.GetNextIndex() }
+
+// VerifSyncHistoryRegion calls syncHistoryRegion with the given stream.
+func (s *RegionSyncer) VerifSyncHistoryRegion(request *pdpb.SyncRegionRequest, stream pdpb.PD_SyncRegionsServer) error {
+	return s.syncHistoryRegion(request, stream)
+}
+
+// VerifHistory returns the syncer's own history buffer.
+func (s *RegionSyncer) VerifHistory() *VerifHistoryBuffer { return &VerifHistoryBuffer{h: s.history} }
